@@ -373,6 +373,32 @@ def random_shard(args):
     return agg
 
 
+def positional_shard(args):
+    """Containers that differ (or do not differ: 0 / -0) in exactly one position - first, middle, last, nested - compared in
+    every pairing and repeatedly within one program (so that the second comparison meets already evaluated elements)."""
+    seed, part, nparts = args
+    agg = Agg()
+    ev = Ev(agg)
+    xs = [(0.0, "0"), (-0.0, "-0"), (1.0, "1"), (1.0000000000000002, "1.0000000000000002"), ("a", "'a'"), ([0.0], "[0]"), ([-0.0], "[-0]"),
+          ({"z": 0.0}, "{z: 0}"), ({"z": -0.0}, "{z: -0}")]
+    items = []
+    for xv, xs_ in xs:
+        items.append(([xv, 1.0, 2.0], "[%s, 1, 2]" % xs_))
+        items.append(([1.0, xv, 2.0], "[1, %s, 2]" % xs_))
+        items.append(([1.0, 2.0, xv], "[1, 2, %s]" % xs_))
+        items.append(([1.0, 7.0, xv, 8.0, 2.0], "[1, 7, %s, 8, 2]" % xs_))
+        items.append(({"a": 1.0, "m": xv, "z": 2.0}, "{a: 1, m: %s, z: 2}" % xs_))
+    pairs = [(i, j) for i in range(len(items)) for j in range(len(items))][part::nparts]
+    try:
+        def gen():
+            for i, j in pairs:
+                yield ((items[i][1], items[i][0]), (items[j][1], items[j][0]))
+        run_cases(agg, ev, pair_cases(gen(), seed))
+    finally:
+        ev.close()
+    return agg
+
+
 def named_args_shard(args):
     """Every argument bound by name (reversed order, and positional-then-named) must give what the positional call gives:
     documented parameter names, driver/stdparams.py."""
@@ -392,6 +418,8 @@ def run(tier, seed):
     quick = tier != "thorough"
     total = Agg()
     for a in common.pmap(named_args_shard, [(seed,)]):
+        total.merge(a)
+    for a in common.pmap(positional_shard, [(seed, i, 16) for i in range(16)]):
         total.merge(a)
     P = pool()
     n = len(P)
@@ -416,7 +444,8 @@ def run(tier, seed):
             "(< <= > >= __compare, __compare_array/__array_* for arrays) against a Python model of JSON equality and "
             "the spec's ordering, unordered pairs must error through every entry point (operators, __compare, __compare_array, __array_*); "
             "the operands reach the operators in rotating forms (locals, inline literals, literal on one side only, parameters, array "
-            "elements, object fields, one aliased value for reflexive pairs); sampled triples for transitivity evaluated inside "
+            "elements, object fields, one aliased value for reflexive pairs); all pairs of 45 containers that differ (or, for 0 / -0, do not differ) in exactly one position - first, middle, last, "
+            "nested; sampled triples for transitivity evaluated inside "
             "Jsonnet; random values with near-equal perturbations; lazily failing tails beyond the deciding "
             "position. documented parameter names: every argument bound by name (reversed order, and positional-then-named) gives what the positional call gives (driver/stdparams.py). distinct_nontrivial = distinct (family, source) programs compared.")
     return common.finish(PROP, tier, seed, total, rule, t0, extra={"pool": n, "all_pairs": exhaustive},
